@@ -545,6 +545,9 @@ class Cid(object):
             del items[1]
 
         check_description, check_type, check_rule = (items + 3 * [""])[:3]
+        # NOTE: Ignore surrounding blanks the same way rows describing fields do.
+        check_type = check_type.strip()
+        check_rule = check_rule.strip()
         self._location.advance_cell()
         if check_description == "":
             raise errors.InterfaceError("check description must be specified", self._location)
